@@ -24,6 +24,13 @@ pub fn project_cm(cm: &CodeMap) -> J {
 }
 
 pub fn project_err<E>(e: &Error<E>) -> J {
+	let mut j = project_err_variant(e);
+	// the same information through the public accessors
+	j["acc"] = json!([e.position(), e.span().start(), e.span().end()]);
+	j
+}
+
+fn project_err_variant<E>(e: &Error<E>) -> J {
 	match e {
 		Error::Stream(p, _) => json!({"kind": "stream", "pos": p}),
 		Error::Unexpected(p, c) => json!({"kind": "unexpected", "pos": p, "ch": c.map(|c| c as i64).unwrap_or(-1)}),
@@ -244,6 +251,14 @@ pub fn compare_outcome(rep: &mut Report, ctx: &J, entry: &str, exp: &J, got: &J,
 	if got.get("panic").is_some() {
 		rep.mismatch("C03.panic", detail("parser panicked"));
 		return;
+	}
+	// Error::position() / Error::span() say what the variant carries (C07 observes errors through them as well)
+	if let Some(acc) = got.get("err").and_then(|e| e.get("acc")) {
+		let ge = &got["err"];
+		let want = if ge.get("span").is_some() { json!([ge["span"][0], ge["span"][0], ge["span"][1]]) } else { json!([ge["pos"], ge["pos"], ge["pos"]]) };
+		if *acc != want {
+			rep.mismatch("C07.error", detail("Error::position() / Error::span() disagree with the offsets carried by the error"));
+		}
 	}
 	let eok = exp["ok"].as_bool().unwrap_or(false);
 	let gok = got["ok"].as_bool().unwrap_or(false);
